@@ -5,6 +5,7 @@
 -/
 import CedarModel.Dispatch
 import CedarProofs.DecisionsTie
+import CedarProps.C03
 
 namespace Cedar.C05
 open Cedar Cedar.HS Cedar.Disp
@@ -112,7 +113,10 @@ theorem auth_path_never_raw (s : Server) (sess : Sess) (keep : Nat → Bool) (re
   exact ⟨hd, h1, h2⟩
 
 /-- **refuse_closes**: an unknown, raw-on-the-authenticated-path or refused command runs no handler
-    and closes the connection; every dispatch ends with the connection closed. -/
+    and closes the connection. (In this two-outcome model every dispatch ends `.closed`; the real
+    `ServeConn` has a third handler outcome, `KeepOpen()`, after which it does NOT close — see
+    `serveAuthH`, `dispatch_ends` below: a run ends closed unless the LAST handler, having passed
+    every check, took ownership of the connection. A refusal always closes.) -/
 theorem refuse_closes (s : Server) (sess : Sess) (keep : Nat → Bool) (cmd : Nat) (rest : List Nat)
     (h : s.lookup cmd = none ∨ (∃ hd, s.lookup cmd = some hd ∧ hd.raw = true) ∨ s.satisfies cmd sess = false) :
     s.serveAuth sess keep cmd rest = [.closed] := by
@@ -195,5 +199,248 @@ example : srv.serveAuth ⟨false, true, "bob"⟩ (fun _ => true) 7 [8, 7] = [.ra
 example : srv.serveAuth ⟨true, false, "alice"⟩ (fun _ => true) 7 [8] = [.ran 7, .closed] := by decide
 example : srv.serveAuth ⟨true, true, "alice"⟩ (fun _ => true) 9 [] = [.closed] := by decide
 example : srv.serveRaw 7 = [.closed] ∧ srv.serveRaw 9 = [.ran 9, .closed] := by decide
+
+/-! ### dispatch_sound over a session that really came out of a handshake
+
+`dispatch_sound` takes the session record as a free parameter. Here the record is the one the
+server builds from the outcome of the C03 server machine (`serverFull`) or of the C06 resumption
+machine (`serverResume`), and "authenticated" / "encrypted" are replaced by what happened on the
+wire in that handshake. -/
+
+/-- how the session a connection is served under came about -/
+inductive Origin
+  | full (cfg : ServerCfg) (cli : ClientScript) (sid : String) (o : Outcome) (adv : Decision)
+         (h : serverFull cfg cli sid = .ok o adv)
+  | resumed (cache : SC.Cache) (now : Nat) (sid : SC.Str) (want : Bool) (nonce : Nat) (ra : Bool)
+         (c' : SC.Cache) (reply : SC.ResumeReply) (o : SC.ResumeOutcome)
+         (h : SC.serverResume cache now sid want nonce ra = (c', reply, some o))
+
+/-- the record `ServeConn` consults (`neg.Authentication`, `neg.Encryption`, `neg.User`) -/
+def Origin.sess : Origin → Sess
+  | .full _ _ _ o _ _ => ⟨o.reportedAuth, o.reportedEnc, o.user⟩
+  | .resumed _ _ _ _ _ _ _ _ o _ => ⟨o.authenticated, o.encrypted, o.user⟩
+
+/-- really authenticated: in THIS handshake one of the server's own listed methods ran to successful
+    completion with the peer and yielded the session's identity — or the session resumed is a live
+    cache entry that was established authenticated, whose identity is the one reported. -/
+def Origin.reallyAuthenticated : Origin → Prop
+  | .full cfg cli _ o _ _ => ∃ m ∈ cfg.methods, (m, true) ∈ o.ran ∧ cli.authOK m = some o.user
+  | .resumed cache now sid _ _ _ _ _ o _ =>
+      ∃ e, cache.get sid = some e ∧ e.expired now = false ∧ e.authenticated = true ∧ o.user = e.user
+
+/-- really encrypted: a session key is installed on the stream (full handshake: `streamKey`, the
+    model's ground truth; resumption: the key of the live cache entry — `C06.resumed_connection_protected`
+    and `C03.*_traffic_protected` say what that means on the wire). -/
+def Origin.reallyKeyed : Origin → Prop
+  | .full _ _ _ o _ _ => ∃ k, o.streamKey = some k
+  | .resumed cache _ sid _ _ _ _ _ o _ => ∃ k e, cache.get sid = some e ∧ e.key = some k ∧ o.key = some k
+
+/-- the flags of the record are true only when the thing really happened -/
+theorem origin_flags_real (og : Origin) :
+    (og.sess.authenticated = true → og.reallyAuthenticated) ∧ (og.sess.encrypted = true → og.reallyKeyed) := by
+  cases og with
+  | full cfg cli sid o adv h =>
+    obtain ⟨method, user, ran, key, _, hauth, _, rfl⟩ := C03.serverFull_ok h
+    refine ⟨fun ha => ?_, fun he => ?_⟩
+    · rcases serverAuthPhase_spec hauth with ⟨hf, _, _⟩ | ⟨_, hm, hin, hok, _, _⟩
+      · simp only [Origin.sess] at ha; rw [hf] at ha; cases ha
+      · exact ⟨method, hm, hin, hok⟩
+    · simp only [Origin.sess] at he
+      cases key with
+      | none => simp at he
+      | some k => exact ⟨k, rfl⟩
+  | resumed cache now sid want nonce ra c' reply o h =>
+    obtain ⟨e, hg, hx, hks, hok, _, hu, ha, _, _⟩ := C06.resume_needs_key cache now sid want nonce ra c' reply o h
+    refine ⟨fun hauth => ⟨e, hg, hx, by rw [← ha]; exact hauth, hu⟩, fun _ => ?_⟩
+    cases hk : e.key with
+    | none => simp [hk] at hks
+    | some k => exact ⟨k, e, hg, hk, by rw [hok, hk]⟩
+
+/-- **dispatch_sound_real**: on a connection whose session came out of a server handshake (full or
+    resumed), for every sequence of follow-on commands and keep-alive behaviours, a handler that runs
+    is registered and not raw, and for that command's CURRENT policy `p`:
+    authentication REQUIRED ⇒ a method really completed in that handshake with the identity the
+    session carries (or the resumed entry was established authenticated);
+    encryption or integrity REQUIRED ⇒ a session key is installed on the stream;
+    and the identity is authorized for the command when an authorizer is configured. -/
+theorem dispatch_sound_real (s : Server) (og : Origin) (keep : Nat → Bool) (rest : List Nat) (cmd c : Nat)
+    (hran : Ev.ran c ∈ s.serveAuth og.sess keep cmd rest) :
+    ∃ h, s.lookup c = some h ∧ h.raw = false ∧
+      (∀ p, s.policyFor c = some p →
+         (p.auth = lvlRequired → og.reallyAuthenticated) ∧
+         ((p.enc = lvlRequired ∨ p.integ = lvlRequired) → og.reallyKeyed)) ∧
+      s.authorizedFor c og.sess.user = true := by
+  obtain ⟨h, hl, hr, hlv, haz⟩ := dispatch_sound s og.sess keep rest cmd c hran
+  refine ⟨h, hl, hr, fun p hp => ?_, haz⟩
+  rw [hp] at hlv
+  obtain ⟨h1, h2⟩ := levelOK_meaning p _ _ hlv
+  exact ⟨fun hq => (origin_flags_real og).1 (h1 hq), fun hq => (origin_flags_real og).2 (h2 hq)⟩
+
+/-! Non-vacuity: a full handshake of a server with CLAIMTOBE against a client that really runs it,
+    then commands 7, 8 (auth+enc REQUIRED), 7 — all run. -/
+private def cliDemo : ClientScript :=
+  { auth := lvlRequired, enc := lvlRequired, methods := ["CLAIMTOBE"], ciphers := ["AES"], key := .good 1,
+    masks := [2], authOK := fun m => if m = "CLAIMTOBE" then some "alice" else none }
+private def cfgDemo : ServerCfg :=
+  { auth := lvlRequired, enc := lvlRequired, integ := lvlOptional, methods := ["CLAIMTOBE"], ciphers := ["AES"] }
+private def outDemo : Outcome :=
+  { reportedAuth := true, reportedEnc := true, reportedMethod := "CLAIMTOBE", user := "alice", sid := "sid",
+    validCommands := "", streamKey := some (sharedKey 2 1), ran := [("CLAIMTOBE", true)] }
+private theorem demoFull : serverFull cfgDemo cliDemo "sid" = .ok outDemo ⟨"CLAIMTOBE", "AES", true, true⟩ := by rfl
+private def ogFull : Origin := .full cfgDemo cliDemo "sid" outDemo _ demoFull
+private def ogResumed : Origin :=
+  .resumed C06.cache0 1000 "s1".toList true 5 false (SC.serverResume C06.cache0 1000 "s1".toList true 5 false).1
+    (.authorized 5) ⟨"alice", true, true, some 7⟩ (by rfl)
+example : srv.serveAuth ogFull.sess (fun _ => true) 7 [8, 7] = [.ran 7, .ran 8, .ran 7, .closed] := by decide
+example : srv.serveAuth ogResumed.sess (fun _ => true) 7 [8] = [.ran 7, .ran 8, .closed] := by decide
+
+/-! ### all three handler outcomes (`KeepOpen()` included) -/
+
+/-- with handlers that never return `KeepOpen()` the three-outcome loop is the two-outcome one -/
+theorem serveAuthH_eq (s : Server) (sess : Sess) (res : Nat → HRes) (hno : ∀ c, res c ≠ .keepOpen) :
+    ∀ (rest : List Nat) (cmd : Nat),
+      s.serveAuthH sess res cmd rest = s.serveAuth sess (fun c => res c == .keepAlive) cmd rest := by
+  intro rest
+  induction rest with
+  | nil =>
+    intro cmd
+    unfold Server.serveAuthH Server.serveAuth
+    cases hl : s.lookup cmd with
+    | none => rfl
+    | some h =>
+      simp only
+      by_cases hr : h.raw = true
+      · simp [hr]
+      · by_cases hs : s.satisfies cmd sess = true
+        · cases hres : res cmd with
+          | keepOpen => exact absurd hres (hno cmd)
+          | done => simp [hr, hs, hres]
+          | keepAlive => simp [hr, hs, hres]
+        · simp [hr, hs]
+  | cons next rest' ih =>
+    intro cmd
+    unfold Server.serveAuthH Server.serveAuth
+    cases hl : s.lookup cmd with
+    | none => rfl
+    | some h =>
+      simp only
+      by_cases hr : h.raw = true
+      · simp [hr]
+      · by_cases hs : s.satisfies cmd sess = true
+        · cases hres : res cmd with
+          | keepOpen => exact absurd hres (hno cmd)
+          | done => simp [hr, hs, hres]
+          | keepAlive => simp [hr, hs, hres, ih next]
+        · simp [hr, hs]
+
+/-- **dispatch_sound_H**: `dispatch_sound` for the three-outcome loop — whatever the handlers return
+    (ownership transfer included), each handler invoked is registered, not raw, and the session met
+    the command's level and authorization at the moment of dispatch. -/
+theorem dispatch_sound_H (s : Server) (sess : Sess) (res : Nat → HRes) :
+    ∀ (rest : List Nat) (cmd : Nat) (c : Nat), Ev.ran c ∈ s.serveAuthH sess res cmd rest →
+      ∃ h, s.lookup c = some h ∧ h.raw = false ∧ s.satisfies c sess = true := by
+  intro rest
+  induction rest with
+  | nil =>
+    intro cmd c hmem
+    unfold Server.serveAuthH at hmem
+    cases hl : s.lookup cmd with
+    | none => simp [hl] at hmem
+    | some h =>
+      simp only [hl] at hmem
+      by_cases hr : h.raw = true
+      · simp [hr] at hmem
+      · have hr' : h.raw = false := by simpa using hr
+        by_cases hs : s.satisfies cmd sess = true
+        · have hc : c = cmd := by
+            cases hres : res cmd <;> simp [hr', hs, hres] at hmem <;> exact hmem
+          subst hc; exact ⟨h, hl, hr', hs⟩
+        · simp [hr', hs] at hmem
+  | cons next rest' ih =>
+    intro cmd c hmem
+    unfold Server.serveAuthH at hmem
+    cases hl : s.lookup cmd with
+    | none => simp [hl] at hmem
+    | some h =>
+      simp only [hl] at hmem
+      by_cases hr : h.raw = true
+      · simp [hr] at hmem
+      · have hr' : h.raw = false := by simpa using hr
+        by_cases hs : s.satisfies cmd sess = true
+        · cases hres : res cmd with
+          | keepOpen => simp [hr', hs, hres] at hmem; subst hmem; exact ⟨h, hl, hr', hs⟩
+          | done => simp [hr', hs, hres] at hmem; subst hmem; exact ⟨h, hl, hr', hs⟩
+          | keepAlive =>
+            simp only [hr', hs, hres, Bool.false_eq_true, if_false, Bool.not_true, List.mem_cons, Ev.ran.injEq] at hmem
+            rcases hmem with rfl | hmem
+            · exact ⟨h, hl, hr', hs⟩
+            · exact ih next c hmem
+        · simp [hr', hs] at hmem
+
+/-- **dispatch_ends**: how a dispatch ends, three-outcome loop: with the connection closed by the
+    server — or, the one exception, with a handler that had passed every check returning
+    `KeepOpen()` (it owns the connection from then on). -/
+theorem dispatch_ends (s : Server) (sess : Sess) (res : Nat → HRes) :
+    ∀ (rest : List Nat) (cmd : Nat),
+      (s.serveAuthH sess res cmd rest).getLast? = some .closed ∨
+      ∃ c, (s.serveAuthH sess res cmd rest).getLast? = some (.ran c) ∧ res c = .keepOpen := by
+  intro rest
+  induction rest with
+  | nil =>
+    intro cmd
+    unfold Server.serveAuthH
+    cases hl : s.lookup cmd with
+    | none => left; rfl
+    | some h =>
+      simp only
+      by_cases hr : h.raw = true
+      · left; simp [hr]
+      · by_cases hs : s.satisfies cmd sess = true
+        · cases hres : res cmd with
+          | keepOpen => right; exact ⟨cmd, by simp [hr, hs], hres⟩
+          | done => left; simp [hr, hs]
+          | keepAlive => left; simp [hr, hs]
+        · left; simp [hr, hs]
+  | cons next rest' ih =>
+    intro cmd
+    unfold Server.serveAuthH
+    cases hl : s.lookup cmd with
+    | none => left; rfl
+    | some h =>
+      simp only
+      by_cases hr : h.raw = true
+      · left; simp [hr]
+      · by_cases hs : s.satisfies cmd sess = true
+        · cases hres : res cmd with
+          | keepOpen => right; exact ⟨cmd, by simp [hr, hs], hres⟩
+          | done => left; simp [hr, hs]
+          | keepAlive =>
+            have hne : s.serveAuthH sess res next rest' ≠ [] := by
+              unfold Server.serveAuthH
+              repeat' split
+              all_goals simp
+            simp only [hr, hs, Bool.false_eq_true, if_false, Bool.not_true, List.getLast?_cons_of_ne_nil hne] 
+            exact ih next
+        · left; simp [hr, hs]
+
+/-- a refusal closes in the three-outcome loop too -/
+theorem refuse_closes_H (s : Server) (sess : Sess) (res : Nat → HRes) (cmd : Nat) (rest : List Nat)
+    (h : s.lookup cmd = none ∨ (∃ hd, s.lookup cmd = some hd ∧ hd.raw = true) ∨ s.satisfies cmd sess = false) :
+    s.serveAuthH sess res cmd rest = [.closed] := by
+  unfold Server.serveAuthH
+  rcases h with h | ⟨hd, h1, h2⟩ | h
+  · simp [h]
+  · simp [h1, h2]
+  · cases hl : s.lookup cmd with
+    | none => rfl
+    | some hd =>
+      simp only
+      by_cases hr : hd.raw = true
+      · simp [hr]
+      · simp [hr, h]
+
+example : srv.serveAuthH ⟨true, true, "alice"⟩ (fun c => if c = 8 then .keepOpen else .keepAlive) 7 [8, 7] = [.ran 7, .ran 8] := by decide
+example : srv.serveAuthH ⟨false, true, "bob"⟩ (fun _ => .keepOpen) 8 [] = [.closed] := by decide
+example : srv.serveRawH (fun _ => .keepOpen) 9 = [.ran 9] ∧ srv.serveRawH (fun _ => .keepOpen) 7 = [.closed] := by decide
 
 end Cedar.C05
